@@ -35,3 +35,39 @@ Definition nv7 : c07case :=
 Theorem C07_nonvacuous :
   c07_wf nv7 = true /\ run_c07 nv7 = ([mkO 0 533333333 [101; 1; 2; 3; 4; 5]], false).
 Proof. vm_compute. split; reflexivity. Qed.
+
+(* ---- converter oracles ---- *)
+From V Require C08Flv C09Adts C09TsFrame.
+From V Require Import C07Conv C07ConvProofs.
+
+Theorem flvconv_model_passes c fs :
+  hvcc_built c -> Forall oframe_ok fs ->
+  flvconv_ok c fs true (Z.of_nat (length (C08Flv.mux_frames c (flv_in (zero_dts fs) fs)))) = true.
+Proof.
+  intros HB OK. unfold flvconv_ok.
+  destruct (flv_run_total c HB (flv_in (zero_dts fs) fs) false (flv_in_ok _ _ OK)) as (b & T & ->).
+  simpl. destruct (psets_known c); auto. apply Z.eqb_refl.
+Qed.
+
+Theorem tsconv_model_passes sps pps fs :
+  Forall oframe_ok fs ->
+  tsconv_ok sps pps fs true (Z.of_nat (length (ts_spec sps pps None (ts_in (zero_dts fs) fs)))) 0 = true.
+Proof.
+  intros OK. unfold tsconv_ok. rewrite (ts_run_spec sps pps None _ (ts_in_ok _ _ OK)).
+  rewrite Z.eqb_refl. simpl. lia.
+Qed.
+
+(* known finding: a sender report arriving after media has started rebases the
+   clock; a later frame (RTP timestamp 3600 ticks later) is presented ~6.6 hours earlier *)
+Theorem sr_rebase_refuted :
+  exists p1 p2 rt,
+    p_ts p1 < p_ts p2 /\
+    let '(_, fs, _) := drun CH264 90000 dst_init [EData p1; ESr (sr_bytes rt 0 0); EData p2] in
+    match fs with
+    | [a; b] => o_pts b < o_pts a
+    | _ => False
+    end.
+Proof.
+  exists (mkP 1 93600 true [65; 1; 2]), (mkP 2 97200 true [65; 3; 4]), 2147483648.
+  vm_compute. split; reflexivity.
+Qed.
